@@ -195,7 +195,8 @@ CHECKS = {
               "an independent first-fit-decreasing-with-reservation reference plus statement-level oracles (fits, priority order, queues restored, heap indices consistent). (b) The real machineManager.Do runs, source-instrumented, under the vsched scheduler on "
               "verifsystem machines: 2-3 requesters Offer / cancel / receive / Done(ok | remote error | transport error), optional machine stop; every interaction is observed in the manager's own order through channel watches and checked against a ledger: "
               "capacity never exceeded, no new work for machines on probation, priority order, every proc returned exactly once (ledger and the manager's own taskProcs at quiescence), no fitting request left waiting (deadlock), no more machines than justified; "
-              "all schedules with <=1 (quick) / 2 (thorough) deviations x all environment choices. (c) Every exit path of (*bigmachineExecutor).Run is forced through the RPC interposer (compile/commit-combiner/run: ok, remote, fatal, transport, machine killed; "
+              "all schedules with <=1 (quick) / 2 (thorough) deviations x all environment choices; plus the executor's first use of a cluster by several tasks at once (one manager per cluster). "
+              "Because a cooperative scheduler cannot see unsynchronised accesses, the same live manager is also run free (6 requesters, mixed sizes, offer/cancel/receive) under the Go race detector — auxiliary, sampled. (c) Every exit path of (*bigmachineExecutor).Run is forced through the RPC interposer (compile/commit-combiner/run: ok, remote, fatal, transport, machine killed; "
               "missing dependency location; cancellation) on machine-capped clusters; afterwards the manager's books must be zero and an Exclusive task per machine must be granted. (d) Local mode under vsched: 3 concurrent one-task runs, Parallelism 1 and 2, "
               "with and without an Exclusive task: at most p tasks inside user code at once, an exclusive task alone."),
         note=TRUSTED + " vsched assumptions as for C03; machine boot is confined to a non-explored prelude; a machine stop is made synchronous (the harness waits until the driver has seen it).",
